@@ -65,7 +65,12 @@ func runKV(c kvCase) (Outcome, map[string]interface{}) {
 		case "PathForKeyShortest":
 			return Outcome{Ret: mv.PathForKeyShortest(c.Key)}
 		case "LeafNodes", "LeafPaths", "LeafValues":
-			mxj.SetAttrPrefix(c.Prefix)
+			applyCount++
+			if c.Prefix == "" && applyCount%2 == 0 {
+				mxj.PrependAttrWithHyphen(false) // the other documented way to the empty prefix (from the current "-")
+			} else {
+				mxj.SetAttrPrefix(c.Prefix)
+			}
 			mxj.LeafUseDotNotation(c.DotN)
 			defer mxj.SetAttrPrefix("-")
 			defer mxj.LeafUseDotNotation(false)
